@@ -207,13 +207,43 @@ pub fn run_c09(ctx: &Ctx) -> (Report, String) {
         let mut rng = Rng::new(ctx.seed ^ 0xC09, w as u64);
         for h in 1..=maxd {
             for s in &strengths {
-                for content in 0..2 {
+                for content in 0..5 {
                     let mut d = vec![0u8; w * h];
-                    if content == 0 {
-                        rng.fill(&mut d);
-                    } else {
-                        for (i, v) in d.iter_mut().enumerate() {
-                            *v = if ((i % w) / 2 + (i / w) / 2) % 2 == 0 { 0 } else { 255 };
+                    match content {
+                        0 => rng.fill(&mut d),
+                        1 => {
+                            for (i, v) in d.iter_mut().enumerate() {
+                                *v = if ((i % w) / 2 + (i / w) / 2) % 2 == 0 { 0 } else { 255 };
+                            }
+                        }
+                        2 => {
+                            // blocky: constant 8x8 blocks with moderate steps (what real decoded pictures look like)
+                            let mut blk = [0u8; 1024];
+                            rng.fill(&mut blk);
+                            let base = rng.byte();
+                            for (i, v) in d.iter_mut().enumerate() {
+                                let b = blk[(((i % w) / 8) * 7 + ((i / w) / 8) * 13) % 1024] % 24;
+                                *v = base.wrapping_add(b);
+                            }
+                        }
+                        3 => {
+                            // repeated rows / columns (period 1, 2 or 4): content-dependent shortcuts show here
+                            let (px, py) = (1usize << rng.below(3), 1usize << rng.below(3));
+                            let mut t = [0u8; 16];
+                            rng.fill(&mut t);
+                            for (i, v) in d.iter_mut().enumerate() {
+                                *v = t[((i / w) % py) * 4 + (i % w) % px];
+                            }
+                        }
+                        _ => {
+                            // smooth ramp with a few outliers
+                            for (i, v) in d.iter_mut().enumerate() {
+                                *v = ((i % w) * 3 + (i / w) * 5) as u8;
+                            }
+                            for _ in 0..(w * h / 16).max(1) {
+                                let p = rng.below((w * h) as u64) as usize;
+                                d[p] = rng.byte();
+                            }
                         }
                     }
                     rep.evaluations += 1;
@@ -244,7 +274,7 @@ pub fn run_c09(ctx: &Ctx) -> (Report, String) {
         total.require("kernel_patterns_vertical", 3_000_000);
         total.require("gradient=negative", 100_000);
         total.require("gradient=positive", 100_000);
-        total.require("geometry_images", (maxd * maxd * strengths.len() * 2) as u64);
+        total.require("geometry_images", (maxd * maxd * strengths.len() * 5) as u64);
     }
     if total.exhaustive.is_none() {
         total.exhaustive = Some(false);
